@@ -143,6 +143,50 @@ impl<'a> Sess<'a> {
         v["op"] = json!("PChk");
         v["id"] = json!(id);
         v["len"] = json!(len);
+        // C12: preamble fields for the specification's header (word counts are read back from the image)
+        {
+            let img = sk.serialize();
+            let st = sk.verif_state();
+            let k = 1u64 << st.lg_k;
+            let c = st.num_coupons as u64;
+            let has_window = 8 * c >= 4 * k && c > 0 && 2 * c >= k;
+            let sparse_or_hybrid = c > 0 && 2 * c < k;
+            let has_table = sparse_or_hybrid || (has_window && !st.table.is_empty());
+            let has_hip = !st.merge_flag;
+            let both = has_table && has_window;
+            let rd = |o: usize| u32::from_le_bytes(img[o..o + 4].try_into().unwrap());
+            let mut o = 8;
+            let (mut nt, mut nw) = (0u32, 0u32);
+            let mut hipb: Vec<u8> = vec![0; 16];
+            if c > 0 {
+                o += 4;
+                if both {
+                    o += 4;
+                    if has_hip {
+                        hipb = img[o..o + 16].to_vec();
+                        o += 16;
+                    }
+                }
+                if has_table {
+                    nt = rd(o);
+                    o += 4;
+                }
+                if has_window {
+                    nw = rd(o);
+                    o += 4;
+                }
+                if has_hip && !both {
+                    hipb = img[o..o + 16].to_vec();
+                }
+            }
+            if img.len() <= 1500 {
+                v["img"] = json!(img);
+                v["sh"] = json!(crate::refhash::seed_hash(9001).to_le_bytes().to_vec());
+                v["hipb"] = json!(hipb);
+                v["nt"] = json!(nt);
+                v["nw"] = json!(nw);
+            }
+        }
         let maxlen = CpcSketch::max_serialized_bytes(sk.lg_k());
         v["maxlen"] = json!(maxlen);
         v["over"] = json!(len > maxlen);
